@@ -3,6 +3,7 @@ package rules
 import (
 	"fmt"
 	"go/token"
+	"go/types"
 	"sort"
 	"strings"
 
@@ -515,8 +516,21 @@ func errFromCalls(v ssa.Value, calls []*ssa.Call, seen map[ssa.Value]bool) bool 
 }
 
 // retryClosures lists the closures handed to Channel.RunWithRetry in the analysed packages.
-func retryClosures(p *core.Prog) []*ssa.Function {
-	var out []*ssa.Function
+// attemptFn is the function RunWithRetry runs once per attempt: a closure, or
+// a method value of a small struct that carries what the closure would have
+// captured (then Recv is the method's receiver and the per-call state lives in
+// its fields instead of captured cells).
+type attemptFn struct {
+	Fn   *ssa.Function
+	Ctx  *ssa.Parameter // the attempt's context
+	RS   *ssa.Parameter // the attempt's RequestState
+	Recv *ssa.Parameter // receiver of a method value; nil for a closure
+	Site core.CallSite
+	MC   *ssa.MakeClosure
+}
+
+func retryAttempts(p *core.Prog) []attemptFn {
+	var out []attemptFn
 	for _, cs := range p.CallsTo("Channel.RunWithRetry") {
 		if !p.InAnalysed(cs.Fn) {
 			continue
@@ -526,9 +540,33 @@ func retryClosures(p *core.Prog) []*ssa.Function {
 		if ct, isCT := fnArg.(*ssa.ChangeType); isCT {
 			fnArg = ct.X
 		}
-		if mc, ok := fnArg.(*ssa.MakeClosure); ok {
-			out = append(out, mc.Fn.(*ssa.Function))
+		mc, ok := fnArg.(*ssa.MakeClosure)
+		if !ok {
+			continue
 		}
+		fn := mc.Fn.(*ssa.Function)
+		at := attemptFn{Fn: fn, Site: cs, MC: mc}
+		if strings.HasPrefix(fn.Synthetic, "bound method wrapper") {
+			if obj, isFn := fn.Object().(*types.Func); isFn {
+				if real := p.SSA.FuncValue(obj); real != nil && real.Blocks != nil && len(real.Params) == 3 {
+					at.Fn, at.Recv, at.Ctx, at.RS = real, real.Params[0], real.Params[1], real.Params[2]
+					out = append(out, at)
+				}
+			}
+			continue
+		}
+		if len(fn.Params) == 2 {
+			at.Ctx, at.RS = fn.Params[0], fn.Params[1]
+		}
+		out = append(out, at)
+	}
+	return out
+}
+
+func retryClosures(p *core.Prog) []*ssa.Function {
+	var out []*ssa.Function
+	for _, a := range retryAttempts(p) {
+		out = append(out, a.Fn)
 	}
 	return out
 }
@@ -540,8 +578,9 @@ func retryClosures(p *core.Prog) []*ssa.Function {
 // and the caller's wait are those of the whole request and a stalled peer eats
 // the complete budget.
 func retryClosureUsesAttemptCtx(p *core.Prog, r *core.Report, rule string) {
-	for _, cl := range retryClosures(p) {
-		if len(cl.Params) != 2 {
+	for _, at := range retryAttempts(p) {
+		cl := at.Fn
+		if at.Ctx == nil {
 			continue
 		}
 		how := ""
@@ -575,6 +614,12 @@ func retryClosureUsesAttemptCtx(p *core.Prog, r *core.Report, rule string) {
 				if _, isFV := v.(*ssa.FreeVar); isFV {
 					how = "the context given to " + calleeShort(c) + " is the enclosing function's (overall) context, not the attempt's"
 				}
+				// a method value: the overall context kept in a field of the receiver
+				if u, isU := v.(*ssa.UnOp); isU && at.Recv != nil {
+					if fa, isFA := u.X.(*ssa.FieldAddr); isFA && fa.X == ssa.Value(at.Recv) {
+						how = "the context given to " + calleeShort(c) + " is the overall context kept in the receiver, not the attempt's"
+					}
+				}
 			}
 		})
 		r.Check(how == "", rule, fname(cl), "calls inside the attempt use the attempt's context", p.Pos(cl.Pos()), "no captured outer context reaches a call", how)
@@ -586,12 +631,13 @@ func c17State(p *core.Prog, r *core.Report) {
 	// every attempt of the library's own retrying clients starts its call with
 	// the attempt's RequestState in the call options (that is how the peers
 	// already tried reach peer selection)
-	for _, cl := range retryClosures(p) {
+	for _, at := range retryAttempts(p) {
+		cl := at.Fn
 		ok := false
-		if len(cl.Params) == 2 {
+		if at.RS != nil {
 			core.EachInstr(cl, func(i ssa.Instruction) {
 				if st, isSt := i.(*ssa.Store); isSt {
-					if fl := core.AddrField(st.Addr); fl != nil && fl.Name() == "RequestState" && st.Val == ssa.Value(cl.Params[1]) {
+					if fl := core.AddrField(st.Addr); fl != nil && fl.Name() == "RequestState" && st.Val == ssa.Value(at.RS) {
 						ok = true
 					}
 				}
